@@ -16,6 +16,7 @@ func AllRules() map[string]*Rule {
 		ruleCommitLeader(),
 		ruleCommitFollower(),
 		ruleOwners(),
+		ruleAppendEntries(),
 	} {
 		m[r.ID] = r
 	}
